@@ -322,8 +322,8 @@ func c03EntryPoints(rec *vk.Rec, b *Broker, lic int, caseNo *int) {
 			rec.Inconclusive("entry points: " + err.Error())
 			return
 		}
-		_, isErr := rep.Fields["status"]
-		if got, want := !isErr, has(security.AllowLoad); got != want {
+		_, hasStatus := rep.Fields["status"] // a history response carries no status; an error reply does (one of 200 would be fine too)
+		if got, want := !hasStatus || rep.Status == 200, has(security.AllowLoad); got != want {
 			fail("history", got, want)
 		}
 		// presence
